@@ -50,6 +50,10 @@ pub struct SpecCfg {
     /// put the always_success binary into the NervosDAO system-cell slot: the node-level DAO
     /// accounting (keyed by the slot's type hash) is exercised without the script's 180-epoch lock
     pub fake_dao: bool,
+    /// proof-of-work engine of the spec: 0 Dummy, 1 Eaglesong, 2 EaglesongBlake2b (with a real engine
+    /// the difficulty is always dynamic: `permanent_difficulty_in_dummy` only applies to Dummy)
+    pub pow: u8,
+    pub genesis_compact_target: Option<u32>,
 }
 
 impl Default for SpecCfg {
@@ -70,6 +74,8 @@ impl Default for SpecCfg {
             initial_primary_epoch_reward: None,
             secondary_epoch_reward: None,
             fake_dao: false,
+            pow: 0,
+            genesis_compact_target: None,
         }
     }
 }
@@ -114,6 +120,14 @@ pub fn build_env(cfg: &SpecCfg) -> Env {
             lock: as_lock.clone().into(),
         })
         .collect();
+    spec.pow = match cfg.pow {
+        0 => ckb_pow::Pow::Dummy,
+        1 => ckb_pow::Pow::Eaglesong,
+        _ => ckb_pow::Pow::EaglesongBlake2b,
+    };
+    if let Some(t) = cfg.genesis_compact_target {
+        spec.genesis.compact_target = t;
+    }
     spec.params.permanent_difficulty_in_dummy = Some(cfg.permanent_difficulty);
     spec.params.genesis_epoch_length = Some(cfg.genesis_epoch_length);
     spec.params.epoch_duration_target = Some(cfg.epoch_duration_target);
